@@ -1684,3 +1684,58 @@ def selective_api(rng, name):
     api.options = ["transport=grpc", "autogen-snippets=false"]
     api.info.update(pkg=pkg, version=ver, ns=["vp"], name=name, host=f"{name}.googleapis.com")
     return api
+
+
+def sample_api(rng, name, transport="grpc"):
+    """Calling forms x required-field kinds for sample generation (C14)."""
+    api = conventional(rng, name, {"version": rng.choice(["v1", "v1beta1"]), "ns": ["vp"], "exotic": False, "streams": True,
+                                   "foreign": True, "reserved": False, "shuffle_numbers": False})
+    tags = api.tags
+    pkg = api.info["pkg"]
+    P = "." + pkg
+    f = [x for x in api.files if x.pb.name.endswith(f"/{name}.proto")][0]
+    color = f.enum("Hue", "HUE_UNSPECIFIED", "WARM", "COLD")
+    leafm = f.message("Spec")
+    leafm.field("code", "string", required=True)
+    leafm.field("weight", "double", required=True)
+    leafm.field("hue", color, required=True)
+    leafm.field("comment", "string")
+    deepm = f.message("Envelope")
+    deepm.field("spec", P + ".Spec", required=True)
+    deepm.field("count", "int64", required=True)
+    deepm.field("free", "string")
+    svc = build.Svc(f.pb.service[0], f)
+    kinds = [("string", "text"), ("int32", "num"), ("bool", "flag"), ("double", "ratio"), ("bytes", "blob"), ("uint64", "big"), ("float", "small")]
+    for i in range(rng.randint(3, 5)):
+        q = f.message(f"Do{i}Request")
+        q.field("name", "string", required=True, ref=f"{name}.googleapis.com/Widget")
+        for t, nm in rng.sample(kinds, rng.randint(1, 4)):
+            q.field(f"req_{nm}", t, required=True)
+        if rng.random() < 0.7:
+            q.field("hue", color, required=True)
+        if rng.random() < 0.7:
+            q.field("spec", P + ".Spec", required=True)
+        if rng.random() < 0.5:
+            q.field("envelope", P + ".Envelope", required=True)
+        if rng.random() < 0.5:
+            q.field("names", "string", repeated=True, required=True)
+        if rng.random() < 0.6:
+            q.field("as_text", "string", oneof="payload")
+            q.field("as_spec", P + ".Spec", oneof="payload")
+        if rng.random() < 0.4:
+            q.field("pick_num", "int32", oneof="choice")
+            q.field("pick_hue", color, oneof="choice")
+        q.field("note", "string")
+        o = f.message(f"Do{i}Response")
+        o.field("ok", "bool")
+        form = rng.choice(["unary", "unary", "server", "lro"])
+        if form == "unary":
+            svc.rpc(f"Do{i}", P + f".Do{i}Request", P + f".Do{i}Response", http={"post": f"/v1/{{name=widgets/*}}:do{i}"}, body="*", sigs=["name"])
+        elif form == "server":
+            svc.rpc(f"Do{i}", P + f".Do{i}Request", P + f".Do{i}Response", ss=True, http={"post": f"/v1/{{name=widgets/*}}:do{i}"}, body="*")
+        else:
+            svc.rpc(f"Do{i}", P + f".Do{i}Request", ".google.longrunning.Operation", http={"post": f"/v1/{{name=widgets/*}}:do{i}"}, body="*",
+                    lro=(f"Do{i}Response", f"Do{i}Request"))
+        tags.add("sample-form:" + form)
+    api.options = [f"transport={transport}", "autogen-snippets"]
+    return api
